@@ -838,7 +838,7 @@ def rule_cachekey(ctx):
     calls = [c for c in w.events if c.kind == "call" and c.name == "self.generate_candidate_set"]
     res = []
     for c in calls:
-        thr = w.events and c.env.get("threshold")
+        thr = w.events and _effective_threshold(w, c.env)
         a = c.args[0] if c.args else c.kwargs.get("threshold")
         okk = a is not None and thr is not None and _same_val(a, thr)
         res.append((bool(okk), "regenerated with this query's threshold" if okk else "regeneration does not receive this query's effective threshold", fact_strs(c)))
@@ -857,7 +857,7 @@ def rule_cachekey(ctx):
         a_c = [x for x in pre if x.kind == "attrstore" and x.target == "self.candidate_set"]
         okn = bool(a_n) and isinstance(a_n[-1].value, Num) and a_n[-1].value.lin == Lin.term(("mcall", "self", "n_added"))
         res_n.append((okn, "records n_added()" if okn else "self.n_added_sort is not set to self.n_added()", fact_strs(r)))
-        thr = r.env.get("threshold")
+        thr = _effective_threshold(wg, r.env)
         okt = bool(a_t) and thr is not None and _same_val(a_t[-1].value, thr)
         res_t.append((okt, "records the effective threshold" if okt else "self.threshold_sort is not set to the effective threshold", fact_strs(r)))
         okf = bool(a_c) and isinstance(a_c[-1].node.value, ast.Call) and call_name(a_c[-1].node.value) in ("Counter", "collections.Counter") \
@@ -886,12 +886,25 @@ def _same_val(a, b):
     return a is b
 
 
+def _effective_threshold(w, env, pname="threshold"):
+    """The value this run works with: whichever local holds uint32(<threshold parameter>) or the default uint32(phi * n_added()) --
+    found by value, so the local may have any name.  Falls back to the binding of the parameter's own name."""
+    cands = []
+    for name, v in env.items():
+        if isinstance(name, str) and name != pname and not name.startswith(("@", "^")) and isinstance(v, Num):
+            if _is_cast_of_param(w, v, pname) or _is_default_threshold(w, v):
+                cands.append(v)
+    if cands and all(c.lin == cands[0].lin for c in cands):
+        return cands[0]
+    return env.get(pname)
+
+
 def _cache_fresh(w, r):
     """Facts on this path entail: recorded n_added >= current n_added (monotone counter => equal), recorded threshold == effective."""
     A = Lin.term(("attr", "self", "n_added_sort"))
     N = Lin.term(("mcall", "self", "n_added"))
     T = Lin.term(("attr", "self", "threshold_sort"))
-    thr = r.env.get("threshold")
+    thr = _effective_threshold(w, r.env)
     fresh_n = bool(w.P.prove_le0(N - A, r.facts))
     fresh_t = isinstance(thr, Num) and bool(w.P.prove_eq0(T - thr.lin, r.facts))
     return fresh_n, fresh_t
